@@ -61,7 +61,8 @@ class FakeSnowflakeConnection:
             ).fetchone()
         ):
             db_file = f"{self.db_path/self.database}.db" if self.db_path else ":memory:"
-            duck_conn.execute(f"ATTACH DATABASE '{db_file}' AS {self.database}")
+            # IF NOT EXISTS because another connection may have created it since the check above
+            duck_conn.execute(f"ATTACH IF NOT EXISTS '{db_file}' AS {self.database}")
             duck_conn.execute(info_schema.creation_sql(self.database))
             duck_conn.execute(macros.creation_sql(self.database))
 
@@ -75,7 +76,7 @@ class FakeSnowflakeConnection:
                 where upper(catalog_name) = '{self.database}' and upper(schema_name) = '{self.schema}'"""
             ).fetchone()
         ):
-            duck_conn.execute(f"CREATE SCHEMA {self.database}.{self.schema}")
+            duck_conn.execute(f"CREATE SCHEMA IF NOT EXISTS {self.database}.{self.schema}")
 
         # set database and schema if both exist
         if (
